@@ -238,6 +238,7 @@ def run(ctx):
     totals = {"vectors": 0, "events_logged": 0, "events_bulk": 0}
     uncovered = []
     messages = {}
+    kinds = {}
     traces = []
     for proto, fname in PROTOS:
         res, recs, trace, rc2, hang = results[proto]
@@ -265,12 +266,19 @@ def run(ctx):
                     uncovered.append({"proto": proto, "section": u["sec"], "name": "_".join(u["name"])})
             elif j.get("t") == "N":
                 messages[proto] = j["v"]
-            elif j.get("t") == "P":
-                ev = j["ev"]
-                ctx.report("panic:%s:%s:%s" % (proto, ev.get("entry"), ev.get("panic", "")[:80]),
-                           "%s: decoding %s input %s panicked: %s" % (proto, ev.get("src"), str(ev.get("data"))[:300], ev.get("panic")),
-                           {"proto": proto, "event": ev})
+            elif j.get("t") == "K":
+                kinds[proto] = j["v"]
         judge_vectors(ctx, proto, recs)
+        seen_panics = set()
+        for j in recs:
+            if j.get("t") == "P":
+                ev = j["ev"]
+                key = "panic:%s:%s:%s" % (proto, ev.get("entry"), re.sub(r"^/.*?/(?=[a-z0-9.-]+/src/)", "", ev.get("panic", "").split(" at ")[-1])[:80])
+                if key in seen_panics:
+                    continue
+                seen_panics.add(key)
+                ctx.report(key, "%s: decoding %s input %s panicked: %s" % (proto, ev.get("src"), str(ev.get("data"))[:300], ev.get("panic")),
+                           {"proto": proto, "event": ev})
         totals["vectors"] += summ["vectors"]
         totals["events_logged"] += summ["events_logged"]
         totals["events_bulk"] += summ["events_bulk"]
@@ -296,6 +304,7 @@ def run(ctx):
                    "descriptions; every member at each point of its sweep with the other members canonical)")
     cov["exhaustive"] = not uncovered
     cov["messages"] = messages
+    cov["vectors_per_member_kind"] = kinds
     cov["uncovered"] = uncovered
     cov["trace_events_validated"] = sum(t[1] for t in tres)
     cov["inputs_executed_without_individual_validation"] = totals["events_bulk"]
